@@ -20,6 +20,7 @@ class Run:
         self.effect = effect              # callsite terminator, env -> label or None
         self.variants_of = variants_of    # adt path -> {variant name: discr value}
         self.paths = []
+        self.mark_blocks = {}
 
     # -- places -------------------------------------------------------------------------------------
     def read(self, env, place):
@@ -86,6 +87,8 @@ class Run:
                 self.paths.append((effects + [("?", "evaluation did not terminate")], False))
                 return
             blk = fn.blocks[b]
+            if b in self.mark_blocks and (not effects or effects[-1] != self.mark_blocks[b]):
+                effects = effects + [self.mark_blocks[b]]
             for s in blk["s"]:
                 if s[0] != "=":
                     continue
@@ -169,8 +172,10 @@ class Run:
                 return
 
 
-def evaluate(fn, init_env, call_value, effect, variants_of=None):
-    """-> list of (effects, returned_normally) per explored path"""
+def evaluate(fn, init_env, call_value, effect, variants_of=None, mark_blocks=None):
+    """-> list of (effects, returned_normally) per explored path; entering a block of `mark_blocks` ({block: effect}) records
+    that effect"""
     r = Run(fn, call_value, effect, variants_of or {})
+    r.mark_blocks = dict(mark_blocks or {})
     r.go(0, dict(init_env), [])
     return r.paths
